@@ -19,6 +19,13 @@ Decided structurally:
   C13.6 misuse surfaces as AnnotationError: every eval() of a symbolic axis lies in a try whose
         NameError handler raises AnnotationError (a bare NameError would be reported by the
         decorator as an ordinary TypeCheckError).
+  C13.10 the blame helper stops probing at the first parameter whose single-parameter re-check fails: the
+        re-checks run in the live memo of the failing call, so a probe of a *later* parameter binds axes that were
+        not in force when the failure was detected (they would be listed as current values) and may fail for a
+        reason of its own (an AnnotationError of a symbolic axis would be absorbed into the TypeCheckError).  Every
+        handler of the probe leaves the loop on all of its paths.
+  C13.11 a check that fails leaves no binding behind (rollback typestate of the array and the PyTree check site, complete
+        restore): otherwise a later error message lists, as current values, bindings taken from a check that failed.
 Not decided: that the blamed parameter is the right one (value level).
 """
 from __future__ import annotations
@@ -46,6 +53,13 @@ def run(ctx: RuleContext):
     ctx.sub(check_stage_wiring, ctx, r)
     ctx.sub(check_cause_polarity, ctx, r)
     ctx.sub(check_blame_context, ctx, r, cg)
+    ctx.sub(check_blame_stops_at_first_failure, ctx, r)
+    # C13.11: 'none taken from the check that failed': a check that does not pass (the first alternative of a Union, a PyTree
+    # whose later leaf fails) leaves no binding behind, or a later failure would list it as a current value -- the rollback
+    # typestate of both check sites (C04.1/C04.2) and a complete restore (C04.4)
+    from .c12 import check_failed_checks_leave_nothing
+
+    ctx.reuse("C13.11", check_failed_checks_leave_nothing, ctx, r)
     from .c01 import check_eval_discipline
 
     ctx.sub(check_eval_discipline, ctx, "C13.6")
@@ -664,3 +678,70 @@ def check_blame_context(ctx, r, cg):
         ctx.ok("C13.5", gp.qualname, "single-parameter re-check is called with exactly *args, **kwargs")
     else:
         ctx.bad("C13.5", gp, gp.node, "the single-parameter re-check is not called with exactly the original *args, **kwargs", construct="re-check call")
+
+
+# ------------------------------------------------------------------------ C13.10
+def _always_leaves(stmts) -> bool:
+    """every path through the list ends in raise / return / break (it never reaches the next iteration)"""
+    for st in stmts:
+        if isinstance(st, (ast.Raise, ast.Return, ast.Break)):
+            return True
+        if isinstance(st, ast.Continue):
+            return False
+        if isinstance(st, ast.If) and st.orelse and _always_leaves(st.body) and _always_leaves(st.orelse):
+            return True
+        if isinstance(st, (ast.With, ast.AsyncWith)) and _always_leaves(st.body):
+            return True
+        if isinstance(st, ast.Try):
+            if st.finalbody and _always_leaves(st.finalbody):
+                return True
+            if _always_leaves(st.body + st.orelse) and all(_always_leaves(h.body) for h in st.handlers):
+                return True
+    return False
+
+
+def check_blame_stops_at_first_failure(ctx, r):
+    m = ctx.model
+    gp = m.func("_decorator._get_problem_arg")
+    ctx.saw(gp)
+    names = set()
+    for st in walk_scope(gp.node):
+        if isinstance(st, ast.Assign) and len(st.targets) == 1 and isinstance(st.targets[0], ast.Name) and isinstance(st.value, ast.Call):
+            t = m.resolve_call(gp, st.value)
+            if t.kind == "func" and t.target.name in ("_make_fn_with_signature", "_apply_typechecker"):
+                names.add(st.targets[0].id)
+    need(names, "C13.10: the synthetic single-parameter function of _get_problem_arg was not found")
+    h = ExcHierarchy(m)
+    probes = []  # (loop, try)
+    def rec(stmts, loop):
+        for st in stmts:
+            if isinstance(st, (ast.FunctionDef, ast.AsyncFunctionDef, ast.ClassDef)):
+                continue
+            if isinstance(st, ast.Try) and any(isinstance(c, ast.Call) and isinstance(c.func, ast.Name) and c.func.id in names for b in st.body for c in ast.walk(b)):
+                probes.append((loop, st))
+            inner = st if isinstance(st, (ast.For, ast.While, ast.AsyncFor)) else loop
+            for fld in ("body", "orelse", "finalbody"):
+                sub = getattr(st, fld, None)
+                if isinstance(sub, list) and sub and isinstance(sub[0], ast.stmt):
+                    rec(sub, inner if fld == "body" else loop)
+            for hd in getattr(st, "handlers", []) or []:
+                rec(hd.body, loop)
+    rec(gp.node.body, None)
+    need(probes, "C13.10: the try around the single-parameter re-check was not found")
+    n = 0
+    for loop, t in probes:
+        if loop is None:
+            raise AnalysisError("C13.10: the single-parameter re-check is not made inside a loop over the parameters; the rule cannot tell when probing stops")
+        for hd in t.handlers:
+            caught = h.handler_names(hd.type)
+            if caught == ["AnnotationError"]:
+                continue
+            n += 1
+            if _always_leaves(hd.body):
+                ctx.ok("C13.10", gp.qualname, f"`except {norm(hd.type) if hd.type is not None else ''}` of the re-check leaves the loop: probing stops at the first failing parameter")
+            else:
+                ctx.bad("C13.10", gp, hd, "after a failing single-parameter re-check the loop goes on to the next parameter: later parameters are checked for the first time in "
+                        "the live memo, so axes they bind are reported as current values although they were not in force when the failure was detected, and a later "
+                        "probe failing for its own reason (AnnotationError of a symbolic axis) is blamed as a violation", construct="blame probe handler continues the loop")
+    ctx.counters["blame_probe_handlers"] = n
+    ctx.floor("C13.10", "blame_probe_handlers", 1)
